@@ -415,6 +415,13 @@ class DemoStorage(ConflictResolvingStorage):
         self._commit_lock.acquire()
 
         with self._lock:
+            if not a and k.get('tid') is None:
+                # Transaction ids must keep increasing across the layers
+                # even if the clock is behind the base's last transaction.
+                last = max(self.base.lastTransaction(),
+                           self.changes.lastTransaction())
+                if last != ZODB.utils.z64:
+                    k['tid'] = ZODB.utils.newTid(last)
             self.changes.tpc_begin(transaction, *a, **k)
             self._transaction = transaction
             self._stored_oids = set()
